@@ -166,8 +166,16 @@ SndKinds == <<
                                     \* closure, blob method, iife), reading or assigning it; in both textual orders
   "P26-both-operands-unsupported",  \* two-point: BOTH operands of a binary operator get values of one and the same type the operator does
                                     \* not support - scalar, element-wise inside tuples and nested tuples, literals and variables
-  "P27-compound-assignment-both-sides-unsupported" \* two-point: target and value of += -= *= /= have one and the same unsupported type; target
+  "P27-compound-assignment-both-sides-unsupported", \* two-point: target and value of += -= *= /= have one and the same unsupported type; target
                                     \* local / captured / global / field / field of a blob parameter; as last use and followed by a use
+  "P28-unknown-through-generic-container", \* a value of still UNKNOWN type (un-annotated parameter, case binding) is put into a generic container
+                                    \* (variant of `Opt :: enum Just *, Nothing`, `*` field of a blob, tuple, list), taken out again inside the
+                                    \* same helper and used at a specific type; the helper is called at another type
+  "P29-operator-before-type-determined", \* ORDER: an operator is applied to the content of a generic holder (Opt.Nothing / [] / a `*` field in a
+                                    \* local, captured or global variable) while its type is still unknown; the type is determined LATER, elsewhere,
+                                    \* to one the operator does not support
+  "P30-case-not-total"              \* a case without else that does not cover every variant: an arm renamed to a sibling's variant (as many
+                                    \* arms as variants, one repeated, one missing), an arm dropped, an undeclared variant; an arm duplicated (legal)
 >>
 
 SndOtherLits(k) ==
@@ -210,6 +218,25 @@ SndIfAlts(n) ==
        IF n.arms[i].els THEN <<>>
        ELSE <<SndA("P20-condition-non-bool", IF i = 1 THEN "if" ELSE "elif", [n EXCEPT !.arms[i].c = I(1)])>>])
 
+(* P30 at a case WITHOUT else: the arms must cover every variant of the enum.  (A binding arm may only take the name of
+   a sibling that binds too: otherwise the binder, not totality, is what the checker objects to.) *)
+SndTotalityAlts(n) ==
+  LET K == "P30-case-not-total"
+      na == Len(n.arms) IN
+  IF n.hasels THEN <<>>
+  ELSE SndFlat([i \in 1..na |->
+          SndFlat([j \in 1..na |->
+             IF i = j \/ n.arms[i].v = n.arms[j].v \/ (n.arms[i].bind /\ ~n.arms[j].bind) THEN <<>>
+             ELSE <<SndA(K, "arm-" \o n.arms[i].v \o "-renamed-to-sibling-" \o n.arms[j].v, [n EXCEPT !.arms[i].v = n.arms[j].v])>>])
+          \o (IF na > 1 /\ i < na
+              THEN <<SndA(K, "arm-" \o n.arms[i].v \o "-dropped", [n EXCEPT !.arms = SubSeq(n.arms, 1, i - 1) \o SubSeq(n.arms, i + 1, na)])>>
+              ELSE <<>>)
+          \o <<SndA(K, "arm-" \o n.arms[i].v \o "-duplicated:legal", [n EXCEPT !.arms = Append(n.arms, n.arms[i])])>>])
+       \o (IF ~n.arms[1].bind
+           THEN <<SndA(K, "arm-" \o n.arms[1].v \o "-renamed-to-undeclared-variant", [n EXCEPT !.arms[1].v = "Zq"])>> ELSE <<>>)
+       \o (IF na > 1
+           THEN <<SndA(K, "arm-" \o n.arms[na].v \o "-replaced-by-copy-of-first", [n EXCEPT !.arms[na] = n.arms[1]])>> ELSE <<>>)
+
 SndCaseAlts(n) ==
   LET na == Len(n.arms) IN
   SndFlat([i \in 1..na |->
@@ -238,6 +265,7 @@ SndCaseAlts(n) ==
                                         [n EXCEPT !.els = <<Print(Bin("+", V(b), I(1)))>> \o @])>> ELSE <<>>)
        ELSE <<SndA("P16-case-binding-misused", "binder-on-payloadless-variant",
                    [n EXCEPT !.arms[i] = CArmB(n.arms[i].v, FB3, <<Print(Bin("+", V(FB3), I(1)))>> \o n.arms[i].body)])>>])
+  \o SndTotalityAlts(n)
 
 SndFnParamIdx(n) == SndSelectIdx(n.params, LAMBDA p : p.ty.k = "tfn" /\ Len(p.ty.ps) = 1)
 
@@ -283,6 +311,8 @@ SndSimilarDecls == <<
   EnumD("E1", <<VD1("X", TInt)>>),                              \* E is X int, Y
   EnumD("EZ", <<VD1("X", TInt), VD0("Y"), VD0("Z")>>),
   EnumD("ES", <<VD1("X", TStr), VD0("Y")>>),
+  \* generic containers (P28 / P29 and the container routes of P23): the payload / field type is unknown until used
+  EnumD("Opt", <<VD1("Just", TName("*")), VD0("Nothing")>>), BlobD("UBox", <<FD("v", TName("*"))>>),
   BlobD("WS", <<FD("w", TStr)>>), BlobD("WB", <<FD("w", TBool)>>), BlobD("WI", <<FD("w", TInt)>>),
   BlobD("CY", <<FD("m", TFn(<<>>, TInt))>>),
   \* two mutable globals of non-numeric type (targets of P27)
@@ -348,6 +378,33 @@ SndViaParam(body, pv) ==
 SndDirectly(body, pv) == IF Len(pv.pre) = 0 THEN body ELSE Call(Fn(<<>>, TNone, pv.pre \o <<Ex(body)>>), <<>>)
 SndPick(pvs, names) == LET idx == SndSelectIdx(pvs, LAMBDA q : q.v \in names) IN [i \in 1..Len(idx) |-> pvs[idx[i]]]
 
+\* fresh binder ids of the generic-container code (P23 container routes, P28, P29)
+FUH == 920      \* the helper
+FUP == 921      \* its un-annotated parameter
+FUB == 922      \* the container
+FUX == 923      \* what is taken out of it
+FUA == 924      \* an alias of the container
+FUY == 925      \* a case binding the value comes from
+FUL == 930      \* P29: the holder
+FUI == 931      \* loop counter
+FUV == 932      \* the content, taken out while its type is unknown
+FUT == 933      \* the stored result of the operator
+FUS == 934      \* closure that uses
+FUD == 935      \* closure that determines
+FUR == 936      \* value of the case
+GULast == 1050
+GUShow == 1051
+GURem == 1052
+
+\* (fn -> pre ; f :: fn a -> <a put into a generic container, taken out again, given to the operator> end ; f(arg) end)()
+\* Use(x): the operator node with x at the operand's place; n: the unperturbed node (value of the branch never taken)
+SndViaParamBoxed(n, Use(_), cont, pv) ==
+  LET body == IF cont = "generic-variant"
+              THEN <<DefM(FUB, TNone, Var1("Opt", "Just", V(FB5))),
+                     Ex(CaseE(V(FUB), <<CArmB("Just", FUX, <<Ex(Use(V(FUX)))>>)>>, <<Ex(n)>>))>>
+              ELSE <<DefC(FUB, TNone, BlobL("UBox", <<FI("v", V(FB5))>>)), Ex(Use(Fld(V(FUB), "v")))>> IN
+  Call(Fn(<<>>, TNone, pv.pre \o <<DefC(FB9, TNone, Fn(<<P(FB5, TNone)>>, TNone, body)), Ex(Call(V(FB9), <<pv.arg>>))>>), <<>>)
+
 SndOperandAlts(n) ==
   LET K == "P23-operand-via-unannotated-parameter" IN
      (IF n.k = "bin" /\ n.op \in {"+", "-", "*", "/", "<", "<=", ">", ">="}
@@ -355,12 +412,18 @@ SndOperandAlts(n) ==
                some == SndPick(pvs, {"variable", "field", "call-result"}) IN
            [i \in 1..Len(pvs) |-> SndA(K, "left-of-" \o n.op \o ":via-parameter:" \o pvs[i].v, SndViaParam([n EXCEPT !.l = V(FB5)], pvs[i]))]
         \o <<SndA(K, "right-of-" \o n.op \o ":via-parameter:variable", SndViaParam([n EXCEPT !.r = V(FB5)], pvs[2]))>>
+        \o <<SndA(K, "left-of-" \o n.op \o ":via-parameter-and-generic-variant:variable",
+                  SndViaParamBoxed(n, LAMBDA x : [n EXCEPT !.l = x], "generic-variant", pvs[2])),
+             SndA(K, "left-of-" \o n.op \o ":via-parameter-and-generic-blob-field:literal",
+                  SndViaParamBoxed(n, LAMBDA x : [n EXCEPT !.l = x], "generic-blob-field", pvs[1]))>>
         \o [i \in 1..Len(some) |-> SndA(K, "left-of-" \o n.op \o ":directly:" \o some[i].v, SndDirectly([n EXCEPT !.l = some[i].arg], some[i]))]
       ELSE <<>>)
   \o (IF n.k = "un"
       THEN LET pvs == SndProvenances(SndWrongFor(IF n.op = "-" THEN "-" ELSE "not")) IN
            [i \in 1..Len(pvs) |-> SndA(K, "operand-of-" \o (IF n.op = "-" THEN "neg" ELSE "not") \o ":via-parameter:" \o pvs[i].v,
                                        SndViaParam([n EXCEPT !.a = V(FB5)], pvs[i]))]
+        \o <<SndA(K, "operand-of-" \o (IF n.op = "-" THEN "neg" ELSE "not") \o ":via-parameter-and-generic-variant:variable",
+                  SndViaParamBoxed(n, LAMBDA x : [n EXCEPT !.a = x], "generic-variant", pvs[2]))>>
       ELSE <<>>)
   \o (IF n.k = "fld" /\ n.e.k # "self" /\ n.f # "w"
       THEN LET pvs == SndPick(SndProvenances(BlobL("WS", <<FI("w", St("abc"))>>)), {"literal", "variable", "alias-chain", "call-result"}) IN
@@ -592,6 +655,141 @@ SndTwoPointAsgs ==
             nm == "-=:str-in-tuple:" \o (IF t = 1 THEN "local" ELSE "captured") IN
         <<[v |-> nm \o ":last-use", ss |-> ss], [v |-> nm \o ":then-used", ss |-> ss \o <<Print(Idx(V(FB6), 1))>>]>>])
 
+---------------------------------------------------------------------------
+(* P28 / P29: values whose type is still UNKNOWN while they travel through a generic container.  Both are context-free
+   insertions like P26 / P27; the combinations are INDEX-ADDRESSED (mixed-radix decoding of the combination number), so a
+   body gets the combinations j with (j + salt) % modulus = 0 without building the whole cross. *)
+
+\* digit d (1-based) of x in the mixed radix rs: x = d1 + r1 * (d2 + r2 * (d3 + ...))
+RECURSIVE SndDigit(_, _, _)
+SndDigit(x, rs, d) == IF d = 1 THEN x % rs[1] ELSE SndDigit(x \div rs[1], SubSeq(rs, 2, Len(rs)), d - 1)
+RECURSIVE SndProduct(_)
+SndProduct(rs) == IF Len(rs) = 0 THEN 1 ELSE rs[1] * SndProduct(SubSeq(rs, 2, Len(rs)))
+\* the combination numbers in 1..n kept at a place with the given salt: j with (j + salt) % m = 0
+SndKept(n, salt, m) == LET j0 == m - (salt % m)
+                           cnt == IF j0 > n THEN 0 ELSE 1 + (n - j0) \div m IN
+                       [q \in 1..cnt |-> j0 + (q - 1) * m]
+
+\* operator and side of the unknown operand x; the other operand is the int 2
+SndUOpSides == <<[op |-> "+", left |-> TRUE], [op |-> "-", left |-> TRUE], [op |-> "*", left |-> TRUE], [op |-> "/", left |-> TRUE],
+                 [op |-> "<", left |-> TRUE], [op |-> "<=", left |-> TRUE], [op |-> ">", left |-> TRUE], [op |-> ">=", left |-> TRUE],
+                 [op |-> "neg", left |-> TRUE],
+                 [op |-> "-", left |-> FALSE], [op |-> "*", left |-> FALSE], [op |-> "<", left |-> FALSE]>>
+SndUName(o) == IF o.op = "neg" THEN "-x" ELSE IF o.left THEN "x" \o o.op \o "2" ELSE "2" \o o.op \o "x"
+SndUUse(o, x) == IF o.op = "neg" THEN Un("-", x) ELSE IF o.left THEN Bin(o.op, x, I(2)) ELSE Bin(o.op, I(2), x)
+\* the same operator applied ELEMENT-WISE to a tuple that holds x (the other operand is the tuple (2, 2))
+SndUUseT(o, x) == LET t == Tup(<<x, I(1)>>)  u == Tup(<<I(2), I(2)>>) IN
+                  IF o.op = "neg" THEN Un("-", t) ELSE IF o.left THEN Bin(o.op, t, u) ELSE Bin(o.op, u, t)
+SndUIsCmp(o) == o.op \in {"<", "<=", ">", ">="}
+SndUDefault(o) == IF SndUIsCmp(o) THEN Bo(FALSE) ELSE IF o.op = "/" THEN Bin("/", I(4), I(2)) ELSE I(0)   \* a value of the type of the use
+SndURet(o) == IF SndUIsCmp(o) THEN TBool ELSE IF o.op = "/" THEN TNone ELSE TInt
+SndUGood == I(20)
+SndUBad(o) == SndWrongFor(o.op)
+
+(* P28.  helper :: fn a -> T do <a into the container> <content taken out> <content used with the operator> end, called at
+   the type the body needs and / or at another one. *)
+SndRTConts == <<"variant-case-else", "variant-case-total", "variant-aliased", "blob-field", "tuple", "list-get", "tuple-elementwise">>
+SndRTSources == <<"parameter", "case-binding">>
+SndRTCalls == <<"good-then-bad", "bad-only", "good-only:legal">>
+SndRTRadix == <<Len(SndRTConts), Len(SndRTSources), Len(SndUOpSides), Len(SndRTCalls)>>
+SndRTCount == SndProduct(SndRTRadix)
+
+SndRoundTrip(j) ==           \* [v, ss]: combination j in 1..SndRTCount
+  LET x == j - 1
+      cont == SndRTConts[SndDigit(x, SndRTRadix, 1) + 1]
+      src == SndRTSources[SndDigit(x, SndRTRadix, 2) + 1]
+      o == SndUOpSides[SndDigit(x, SndRTRadix, 3) + 1]
+      calls == SndRTCalls[SndDigit(x, SndRTRadix, 4) + 1]
+      dflt == SndUDefault(o)
+      JustArm == CArmB("Just", FUX, <<Ex(SndUUse(o, V(FUX)))>>)
+      Body(a) ==
+        CASE cont = "variant-case-else" ->
+               <<DefM(FUB, TNone, Var1("Opt", "Just", a)), Ex(CaseE(V(FUB), <<JustArm>>, <<Ex(dflt)>>))>>
+          [] cont = "variant-case-total" ->
+               <<DefM(FUB, TNone, Var1("Opt", "Just", a)), Ex(CaseT(V(FUB), <<JustArm, CArm("Nothing", <<Ex(dflt)>>)>>))>>
+          [] cont = "variant-aliased" ->
+               <<DefC(FUB, TNone, Var1("Opt", "Just", a)), DefC(FUA, TNone, V(FUB)), Ex(CaseE(V(FUA), <<JustArm>>, <<Ex(dflt)>>))>>
+          [] cont = "blob-field" ->
+               <<DefC(FUB, TNone, BlobL("UBox", <<FI("v", a)>>)), Ex(SndUUse(o, Fld(V(FUB), "v")))>>
+          [] cont = "tuple" ->
+               <<DefC(FUB, TNone, Tup(<<a, I(0)>>)), Ex(SndUUse(o, Idx(V(FUB), 0)))>>
+          [] cont = "list-get" ->
+               <<DefC(FUB, TNone, Lst(<<a>>)), Ex(CaseE(Call(Std("list.get"), <<V(FUB), I(0)>>), <<JustArm>>, <<Ex(dflt)>>))>>
+          [] cont = "tuple-elementwise" ->      \* the value stays in the tuple: the operator takes the tuple, the result is only stored
+               <<DefC(FUB, TNone, SndUUseT(o, a)), Ex(dflt)>>
+      helper == IF src = "parameter" THEN Fn(<<P(FUP, TNone)>>, SndURet(o), Body(V(FUP)))
+                ELSE Fn(<<P(FUP, TNone)>>, SndURet(o), <<Ex(CaseE(V(FUP), <<CArmB("Just", FUY, Body(V(FUY)))>>, <<Ex(dflt)>>))>>)
+      Arg(v) == IF src = "parameter" THEN v ELSE Var1("Opt", "Just", v)
+      CallH(v) == Print(Call(V(FUH), <<Arg(v)>>)) IN
+  [v |-> cont \o ":from-" \o src \o ":" \o SndUName(o) \o ":" \o calls,
+   ss |-> <<DefC(FUH, TNone, helper)>>
+          \o (CASE calls = "good-then-bad" -> <<CallH(SndUGood), CallH(SndUBad(o))>>
+                [] calls = "bad-only" -> <<CallH(SndUBad(o))>>
+                [] OTHER -> <<CallH(SndUGood), CallH(I(6))>>)]
+
+(* P29.  A holder of a value of unknown type lives in a variable; the content is taken out and given to an operator while
+   its type is unknown (use); the type is determined by what is put in (determination), at another place. *)
+SndLTHolders == <<"opt", "list", "blob-field">>
+SndLTUses == <<"result-stored", "result-printed", "result-is-arm-value", "result-stored:legal">>
+SndLTOrders == <<"use-first", "determination-first">>
+SndLTLocalScopes == <<"local-in-loop", "captured-by-closures">>
+SndLTRadix(scopes) == <<Len(SndLTHolders), Len(scopes), Len(SndUOpSides), Len(SndLTUses), Len(SndLTOrders)>>
+SndLTCount(scopes) == SndProduct(SndLTRadix(scopes))
+
+SndLate(j, scopes) ==        \* [v, sc, hd: the holder's initial value, use: statements, det: statement, useFirst]
+  LET x == j - 1
+      rs == SndLTRadix(scopes)
+      h == SndLTHolders[SndDigit(x, rs, 1) + 1]
+      sc == scopes[SndDigit(x, rs, 2) + 1]
+      o == SndUOpSides[SndDigit(x, rs, 3) + 1]
+      use == SndLTUses[SndDigit(x, rs, 4) + 1]
+      ord == SndLTOrders[SndDigit(x, rs, 5) + 1]
+      H == IF sc = "global" THEN V(GULast) ELSE V(FUL)
+      val == IF use = "result-stored:legal" THEN SndUGood ELSE SndUBad(o)
+      scrut == (CASE h = "opt" -> H [] h = "list" -> Call(Std("list.get"), <<H, I(0)>>) [] h = "blob-field" -> Fld(H, "v"))
+      e == SndUUse(o, V(FUV)) IN
+  [v |-> h \o ":" \o sc \o ":" \o SndUName(o) \o ":" \o use \o ":" \o ord,
+   sc |-> sc,
+   hd |-> (CASE h = "opt" -> Var0("Opt", "Nothing") [] h = "list" -> Lst(<<>>)
+            [] h = "blob-field" -> BlobL("UBox", <<FI("v", Var0("Opt", "Nothing"))>>)),
+   use |-> (CASE use \in {"result-stored", "result-stored:legal"} ->
+                  <<Ex(CaseE(scrut, <<CArmB("Just", FUV, <<DefC(FUT, TNone, e), Print(V(FUT))>>)>>, <<>>))>>
+             [] use = "result-printed" -> <<Ex(CaseE(scrut, <<CArmB("Just", FUV, <<Print(e)>>)>>, <<>>))>>
+             [] use = "result-is-arm-value" ->
+                  <<DefC(FUR, TNone, CaseE(scrut, <<CArmB("Just", FUV, <<Ex(e)>>)>>, <<Ex(SndUDefault(o))>>)), Print(V(FUR))>>),
+   det |-> (CASE h = "opt" -> Asg("=", H, Var1("Opt", "Just", val))
+             [] h = "list" -> Ex(Call(Std("list.push"), <<H, val>>))
+             [] h = "blob-field" -> Asg("=", Fld(H, "v"), Var1("Opt", "Just", val))),
+   useFirst |-> ord = "use-first"]
+
+SndLateLocal(j) ==           \* [v, ss]: the statements inserted at the start of a function / loop body
+  LET c == SndLate(j, SndLTLocalScopes) IN
+  [v |-> c.v,
+   ss |-> IF c.sc = "local-in-loop"
+          THEN <<DefM(FUL, TNone, c.hd), DefM(FUI, TNone, I(0)),
+                 Loop(Bin("<", V(FUI), I(2)),
+                      (IF c.useFirst THEN c.use \o <<c.det>> ELSE <<c.det>> \o c.use) \o <<Asg("+=", V(FUI), I(1))>>)>>
+          ELSE LET u == DefC(FUS, TNone, Fn(<<>>, TVoid, c.use))
+                   d == DefC(FUD, TNone, Fn(<<>>, TVoid, <<c.det>>)) IN
+               <<DefM(FUL, TNone, c.hd)>> \o (IF c.useFirst THEN <<u, d>> ELSE <<d, u>>)
+               \o <<Ex(Call(V(FUS), <<>>)), Ex(Call(V(FUD), <<>>)), Ex(Call(V(FUS), <<>>))>>]
+
+\* the global form: the holder and the two functions are top-level definitions, start calls use / determination / use first
+SndLateGlobalCount == SndLTCount(<<"global">>)
+SndLateGlobal(j, tops) ==    \* [v, tops]
+  LET c == SndLate(j, <<"global">>)
+      si == CHOOSE i \in 1..Len(tops) : tops[i].k = "def" /\ tops[i].n = "start"
+      u == DefN(GUShow, "const", TNone, Fn(<<>>, TVoid, c.use), "ushow")
+      d == DefN(GURem, "const", TNone, Fn(<<>>, TVoid, <<c.det>>), "uremember")
+      calls == <<Ex(Call(V(GUShow), <<>>)), Ex(Call(V(GURem), <<>>)), Ex(Call(V(GUShow), <<>>))>> IN
+  [v |-> c.v,
+   tops |-> SubSeq(tops, 1, si - 1) \o <<DefN(GULast, "mut", TNone, c.hd, "ulast")>> \o (IF c.useFirst THEN <<u, d>> ELSE <<d, u>>)
+            \o <<[tops[si] EXCEPT !.e.body = calls \o @]>> \o SubSeq(tops, si + 1, Len(tops))]
+
+SndThinUnknown == 200       \* elsewhere: every 200th combination per body
+SndDenseUnknown == 3        \* in D:twopoint: every 3rd combination per body (6 bodies whose salts cover all residues: every combination 1-3 times)
+SndThinRoot == 144
+
 RECURSIVE SndPathSum(_, _)
 SndPathSum(ctx, i) == IF i > Len(ctx) THEN 0 ELSE ctx[i][2] + 1 + SndPathSum(ctx, i + 1)
 
@@ -645,6 +843,35 @@ SndAlts(n, ctx, dense) ==
        THEN (IF n.k = "fld" THEN <<SndA("P7-field-missing-or-misspelt", "assigned-misspelt-on-" \o n.e.k, [n EXCEPT !.f = n.f \o "x"])>> ELSE <<>>)
   ELSE SndExprAlts(n)
 
+(* The INDEX-ADDRESSED alternatives of a site (P28 / P29): the q-th one is built from its combination number alone, so
+   that re-deriving one case does not build the hundreds of alternatives of a dense site.  They precede the enumerated
+   alternatives SndAlts in the numbering of a site's alternatives. *)
+SndIsBody(ctx) == Len(ctx) > 0 /\ ctx[Len(ctx)] \in {<<"fn", 1>>, <<"loop", 2>>}
+SndIdxRT(ctx, dense) == SndKept(SndRTCount, SndPathSum(ctx, 1), IF dense THEN SndDenseUnknown ELSE SndThinUnknown)
+SndIdxLT(ctx, dense) == SndKept(SndLTCount(SndLTLocalScopes), SndPathSum(ctx, 1) + 1, IF dense THEN SndDenseUnknown ELSE SndThinUnknown)
+SndIdxGlobal(n, dense) == IF dense THEN [q \in 1..SndLateGlobalCount |-> q]
+                          ELSE SndKept(SndLateGlobalCount, Len(n.ss) + SndSizeKids(n.ss, 1), SndThinRoot)
+SndIndexedCount(n, ctx, dense) ==
+  IF n.k # "seq" THEN 0
+  ELSE IF Len(ctx) = 0 THEN Len(SndIdxGlobal(n, dense))
+  ELSE IF SndIsBody(ctx) THEN Len(SndIdxRT(ctx, dense)) + Len(SndIdxLT(ctx, dense))
+  ELSE 0
+SndIndexed(n, ctx, dense, q) ==          \* q in 1..SndIndexedCount(n, ctx, dense)
+  IF Len(ctx) = 0
+  THEN LET cs == {SndLateGlobal(SndIdxGlobal(n, dense)[q], n.ss)}
+           c == CHOOSE x \in cs : TRUE IN
+       SndA("P29-operator-before-type-determined", c.v, SndSeqN(c.tops))
+  ELSE LET nrt == Len(SndIdxRT(ctx, dense))
+           cs == {IF q <= nrt THEN SndRoundTrip(SndIdxRT(ctx, dense)[q]) ELSE SndLateLocal(SndIdxLT(ctx, dense)[q - nrt])}
+           c == CHOOSE x \in cs : TRUE IN
+       SndA(IF q <= nrt THEN "P28-unknown-through-generic-container" ELSE "P29-operator-before-type-determined",
+            c.v, SndSeqN(SndInsertSeq(n.ss, 1, c.ss)))
+
+\* alternative a of a site: the indexed ones first (no other alternative is built to derive one of them), then the enumerated
+\* ones (eager: their sequence; an operator argument is evaluated only when used, and the caller may bind it once)
+SndAltOf(eager, n, ctx, dense, a) ==
+  LET ni == SndIndexedCount(n, ctx, dense) IN IF a <= ni THEN SndIndexed(n, ctx, dense, a) ELSE eager[a - ni]
+
 ---------------------------------------------------------------------------
 (* Dedicated base programs (well-typed; they follow the common Prelude) *)
 
@@ -662,7 +889,7 @@ SndApFn == DefN(GAp, "const", TNone,
 
 SndDedicatedNames == <<"prelude", "scopes", "hof", "void", "lists", "blobs", "captured", "cases", "returns",
                        "glob-read", "glob-compound", "glob-field", "glob-alias", "glob-method",
-                       "usertypes-blob", "usertypes-enum-tuple", "methods", "twopoint">>
+                       "usertypes-blob", "usertypes-enum-tuple", "methods", "twopoint", "totality">>
 
 SndDedicated(name) ==
   CASE name = "prelude" ->       \* uses every definition of the Prelude; the one base that is perturbed INSIDE the Prelude too
@@ -818,6 +1045,25 @@ SndDedicated(name) ==
                       Loop(Bin("<", V(63), I(1)), <<Asg("+=", V(63), I(1))>>),
                       Print(Bin("+", Bin("+", Call(V(GF2), <<I(1)>>), V(GA)), Bin("+", Bin("+", Call(V(61), <<>>), Call(Fld(V(62), "m"), <<>>)), V(63))))>>)>>
 
+    \* cases WITHOUT else over enums of 2, 3 and 4 variants, as the value of a function, as an operand, in statement position;
+    \* every variant reaches every case at run time
+    [] name = "totality" ->
+         <<DefN(GF2, "const", TNone,
+                Fn(<<P(60, TName("E4"))>>, TInt,
+                   <<Ex(CaseT(V(60), <<CArmB("A", 61, <<Ex(V(61))>>), CArm("B", <<Ex(I(1))>>), CArm("C", <<Ex(I(2))>>), CArm("D", <<Ex(I(3))>>)>>))>>), "use4"),
+           DefN(GA, "const", TNone,
+                Fn(<<P(62, TName("E3"))>>, TVoid,
+                   <<Ex(CaseT(V(62), <<CArm("C", <<Print(I(30))>>), CArmB("A", 63, <<Print(Bin("+", V(63), I(1)))>>), CArm("B", <<Print(I(20))>>)>>))>>), "show3"),
+           DefN(GB2, "const", TNone,
+                Fn(<<P(64, TE)>>, TInt, <<Ex(Bin("+", CaseT(V(64), <<CArm("Y", <<Ex(I(5))>>), CArmB("X", 65, <<Ex(V(65))>>)>>), I(1)))>>), "use2"),
+           StartDef(<<Print(Bin("+", Bin("+", Call(V(GF2), <<Var1("E4", "A", I(5))>>), Call(V(GF2), <<Var0("E4", "B")>>)),
+                                Bin("+", Call(V(GF2), <<Var0("E4", "C")>>), Call(V(GF2), <<Var0("E4", "D")>>)))),
+                      Ex(Call(V(GA), <<Var1("E3", "A", I(1))>>)), Ex(Call(V(GA), <<Var0("E3", "B")>>)), Ex(Call(V(GA), <<Var0("E3", "C")>>)),
+                      Print(Bin("+", Call(V(GB2), <<Var1("E", "X", I(2))>>), Call(V(GB2), <<Var0("E", "Y")>>))),
+                      DefM(66, TNone, Var0("E3", "B")),
+                      DefC(67, TInt, CaseT(V(66), <<CArmB("A", 68, <<Ex(V(68))>>), CArm("B", <<Ex(I(7))>>), CArm("C", <<Ex(I(8))>>)>>)),
+                      Print(Bin("+", V(67), I(1)))>>)>>
+
 ---------------------------------------------------------------------------
 (* Bases.  A base id is [o, pos, i, h, v]: template o (or "D:<name>"), hole pos filled with template i
    (0 / "-" for none), harness h, v-th member of the set of default fillings. *)
@@ -857,7 +1103,9 @@ SndPairBids(ps) ==     \* ps: a subset of SyltGen!Pairs
 \* the perturbed program of case (bid, site s, alternative a)
 SndPerturbed(bid, s, a) ==
   LET root == SndTree(bid)
-      alt == SndAlts(SndAt(root, s), SndCtx(root, s), SndIsDense(bid))[a] IN
+      n == SndAt(root, s)
+      ctx == SndCtx(root, s)
+      alt == CHOOSE x \in {SndAltOf(SndAlts(n, ctx, SndIsDense(bid)), n, ctx, SndIsDense(bid), a)} : TRUE IN
   [kd |-> alt.kd, v |-> alt.v, tops |-> SndProgram(bid, SndPut(root, s, alt.n))]
 
 ---------------------------------------------------------------------------
@@ -873,14 +1121,19 @@ SndAllowedTerminals == {"done", "assert_failed", "unreachable", "resource_exhaus
 
 PInit == ph = "init" /\ written = {} /\ term = ""
 
-PStart == ph = "init" /\ ph' = "started" /\ UNCHANGED <<written, term>>
-PCompileErr == ph = "started" /\ ph' = "rejected" /\ UNCHANGED <<written, term>>
-PCompilePanic == ph = "started" /\ ph' = "rejected" /\ UNCHANGED <<written, term>>       \* not accepted; C07 judges it
-PCompileOk == ph = "started" /\ ph' = "accepted" /\ UNCHANGED <<written, term>>
-PGlobalWrite(n) == ph \in {"accepted", "running"} /\ ph' = "running" /\ written' = written \cup {n} /\ UNCHANGED term
+\* Every action is `guard /\ effect` with an effect that is always possible, so ENABLED <action> is its guard (named ..G:
+\* Trace_Sound asks "is the next event a step of the protocol" through the guards, without evaluating the effects again)
+PStartG == ph = "init"
+PCompileG == ph = "started"
+PRunG == ph \in {"accepted", "running"}
+PStart == PStartG /\ ph' = "started" /\ UNCHANGED <<written, term>>
+PCompileErr == PCompileG /\ ph' = "rejected" /\ UNCHANGED <<written, term>>
+PCompilePanic == PCompileG /\ ph' = "rejected" /\ UNCHANGED <<written, term>>       \* not accepted; C07 judges it
+PCompileOk == PCompileG /\ ph' = "accepted" /\ UNCHANGED <<written, term>>
+PGlobalWrite(n) == PRunG /\ ph' = "running" /\ written' = written \cup {n} /\ UNCHANGED term
 \* a global is only ever read after it was written: a read of a never-written global yields nil, i.e. the program
 \* reads an uninitialised or out-of-scope variable
-PGlobalRead(n) == ph \in {"accepted", "running"} /\ n \in written /\ ph' = "running" /\ UNCHANGED <<written, term>>
+PGlobalRead(n) == PRunG /\ n \in written /\ ph' = "running" /\ UNCHANGED <<written, term>>
 \* a maximal run of consecutive global accesses taken as one step: the sequential composition of PGlobalWrite /
 \* PGlobalRead over run = <<[e |-> "gw" | "gr", n |-> name], ...>>; enabled iff every read finds its name written
 RECURSIVE SndFoldGlobals(_, _, _)
@@ -889,11 +1142,13 @@ SndFoldGlobals(run, i, w) ==          \* [ok, w, at]: at = index of the first re
   ELSE IF run[i].e = "gw" THEN SndFoldGlobals(run, i + 1, w \cup {run[i].n})
   ELSE IF run[i].n \in w THEN SndFoldGlobals(run, i + 1, w)
   ELSE [ok |-> FALSE, w |-> w, at |-> i]
-PGlobalRun(run) == /\ ph \in {"accepted", "running"} /\ ph' = "running"
+PGlobalRunG(run) == PRunG /\ SndFoldGlobals(run, 1, written).ok
+PGlobalRun(run) == /\ PRunG /\ ph' = "running"
                    /\ LET r == SndFoldGlobals(run, 1, written) IN r.ok /\ written' = r.w
                    /\ UNCHANGED term
-PPrint == ph \in {"accepted", "running"} /\ ph' = "running" /\ UNCHANGED <<written, term>>
-PTerminal(t) == ph \in {"accepted", "running"} /\ t \in SndAllowedTerminals /\ ph' = "ended" /\ term' = t /\ UNCHANGED written
+PPrint == PRunG /\ ph' = "running" /\ UNCHANGED <<written, term>>
+PTerminalG(t) == PRunG /\ t \in SndAllowedTerminals
+PTerminal(t) == PTerminalG(t) /\ ph' = "ended" /\ term' = t /\ UNCHANGED written
 
 \* the property as a state invariant of the protocol
 SndSound == /\ ph = "ended" => term \in SndAllowedTerminals
